@@ -990,49 +990,96 @@ func lastElement(v ssa.Value) bool {
 // diagnostic for every element of the stored result's Diagnostics.
 func (c *Ctx) lspPublish(ob *core.Obligation, fn *ssa.Function, uri *ssa.Parameter, checked *ssa.Call) {
 	key := "lsp-store:publish"
+	// the diagnostics of the analysis just stored: a Diagnostics field path rooted in a local
+	// that holds the result of the check (directly, or in one of its fields)
+	isDiags := func(v ssa.Value) bool {
+		if !strings.HasSuffix(fieldPath(v), "Diagnostics") {
+			return false
+		}
+		al := rootAlloc(v)
+		if al == nil {
+			return false
+		}
+		if storedFrom(al, checked) {
+			return true
+		}
+		if al.Referrers() != nil {
+			for _, r := range *al.Referrers() {
+				if fa, ok := r.(*ssa.FieldAddr); ok && fa.Referrers() != nil {
+					for _, r2 := range *fa.Referrers() {
+						if st, ok := r2.(*ssa.Store); ok && st.Addr == ssa.Value(fa) && st.Val == ssa.Value(checked) {
+							return true
+						}
+					}
+				}
+			}
+		}
+		return false
+	}
+	if c.publishesIn(fn, func(v ssa.Value) bool { return v == ssa.Value(uri) }, isDiags, 0) {
+		ob.Pass(key, c.P.Pos(fn.Pos()), "published under the same URI, one entry per diagnostic of the same analysis")
+	} else {
+		ob.Fail(key, c.P.Pos(fn.Pos()), "the published diagnostics are not 'all diagnostics of the stored analysis, under the same URI'")
+	}
+}
+
+// publishesIn: g stores a URI satisfying isURI into a message and fills the message's
+// diagnostics with one entry per element of a value satisfying isDiags (a loop over it, or a
+// conversion helper proved to return one element per element) - or hands both to a helper of
+// the package that does.
+func (c *Ctx) publishesIn(g *ssa.Function, isURI, isDiags func(ssa.Value) bool, depth int) bool {
+	if depth > 2 {
+		return false
+	}
 	okURI, okLoop := false, false
-	for _, b := range fn.Blocks {
+	for _, b := range g.Blocks {
 		for _, in := range b.Instrs {
 			if st, ok := in.(*ssa.Store); ok {
-				if f := core.FieldOf(st.Addr); f != nil && f.Name() == "URI" && st.Val == uri {
+				if f := core.FieldOf(st.Addr); f != nil && f.Name() == "URI" && isURI(st.Val) {
 					okURI = true
 				}
 			}
 			if iff, ok := in.(*ssa.If); ok && isRangeCond(iff.Cond) {
 				bo := iff.Cond.(*ssa.BinOp)
-				if lc, ok := core.Strip(bo.Y).(*ssa.Call); ok && strings.HasSuffix(fieldPath(lc.Call.Args[0]), "Diagnostics") {
-					if al := rootAlloc(lc.Call.Args[0]); al != nil && storedFrom(al, checked) {
-						okLoop = true
-					}
+				if lc, ok := core.Strip(bo.Y).(*ssa.Call); ok && isDiags(lc.Call.Args[0]) {
+					okLoop = true
 				}
 			}
 		}
 	}
-	// or a conversion helper that returns one element per element of the diagnostics it is given
-	for _, ci := range core.Calls(fn) {
+	for _, ci := range core.Calls(g) {
 		call, ok := ci.(*ssa.Call)
 		if !ok {
 			continue
 		}
 		sc := call.Call.StaticCallee()
-		if sc == nil || !c.P.InModule(sc) || len(sc.Blocks) == 0 {
+		if sc == nil || sc == g || !c.P.InModule(sc) || len(sc.Blocks) == 0 {
 			continue
 		}
+		iu, idg := -1, -1
 		for ai, a := range call.Call.Args {
-			if !strings.HasSuffix(fieldPath(a), "Diagnostics") {
-				continue
+			if isURI(a) {
+				iu = ai
 			}
-			if al := rootAlloc(a); al != nil && storedFrom(al, checked) && c.lenFacts().summary(sc) == ai {
-				okLoop = true
+			if isDiags(a) {
+				idg = ai
+			}
+		}
+		// a conversion helper that returns one element per element of the diagnostics
+		if idg >= 0 && c.lenFacts().summary(sc) == idg {
+			okLoop = true
+			c.Touch(sc)
+		}
+		// a helper that is handed both and publishes
+		if iu >= 0 && idg >= 0 && iu < len(sc.Params) && idg < len(sc.Params) {
+			pu, pd := sc.Params[iu], sc.Params[idg]
+			if c.publishesIn(sc, func(v ssa.Value) bool { return resolveLocal(v) == ssa.Value(pu) }, func(v ssa.Value) bool { return resolveLocal(v) == ssa.Value(pd) }, depth+1) {
 				c.Touch(sc)
+				return true
 			}
 		}
 	}
-	if okURI && okLoop {
-		ob.Pass(key, c.P.Pos(fn.Pos()), "published under the same URI, one entry per diagnostic of the same analysis")
-	} else {
-		ob.Fail(key, c.P.Pos(fn.Pos()), "the published diagnostics are not 'all diagnostics of the stored analysis, under the same URI'")
-	}
+	return okURI && okLoop
 }
 
 // HoverUnderContains (C19.6): a hover result is created only where the position was found
